@@ -135,4 +135,25 @@ def profiles(eq, mesh, spec):
     return out
 
 
-EXTRACTORS = {"profiles": profiles, "fieldpts": fieldpts, "beta": beta, "bpsign": bpsign, "eqinfo": eqinfo, "regions": regions, "meshmeta": meshmeta}
+def contours(eq, mesh, spec):
+    """per region and contour: coarse distances, startInd/endInd, FineContour distance and the zShift integrand on it;
+    chain structure (y-groups) — everything calcHy / calcPoloidalDistance / calcZShift read"""
+    out = {"regions": {}, "y_groups": [[r.myID for r in g] for g in mesh.y_groups]}
+    for rid, r in mesh.regions.items():
+        cs = []
+        for c in r.contours:
+            d = np.array(c.get_distance(psi=eq.psi), dtype=float)
+            fc = c.get_fine_contour(psi=eq.psi)
+            Rf, Zf = fc.positions[:, 0], fc.positions[:, 1]
+            Bt = eq.fpol(eq.psi(Rf, Zf)) / Rf
+            Bp = np.sqrt(eq.Bp_R(Rf, Zf) ** 2 + eq.Bp_Z(Rf, Zf) ** 2)
+            cs.append({"d": d, "startInd": int(c.startInd), "endInd": int(c.endInd if c.endInd >= 0 else len(c) + c.endInd),
+                       "fine_d": np.array(fc.distance, dtype=float), "fine_integrand": np.array(Bt / (Rf * Bp) + 0.0 * Rf, dtype=float),
+                       "fine_startInd": int(fc.startInd), "fine_endInd": int(fc.endInd),
+                       "R": np.array([p.R for p in c]), "Z": np.array([p.Z for p in c])})
+        out["regions"][rid] = {"name": r.name, "nx": r.nx, "ny": r.ny, "connections": dict(r.connections), "yGroupIndex": r.yGroupIndex,
+                               "contours": cs, "dy": float(mesh.dy_scalar)}
+    return out
+
+
+EXTRACTORS = {"contours": contours, "profiles": profiles, "fieldpts": fieldpts, "beta": beta, "bpsign": bpsign, "eqinfo": eqinfo, "regions": regions, "meshmeta": meshmeta}
